@@ -46,6 +46,14 @@ type XAConn struct {
 	branchRegisterTime time.Time
 	prepareTime        time.Time
 	isConnKept         bool
+	// broken: an XA branch could neither be ended nor rolled back on this
+	// connection; only closing it makes the database drop the branch
+	broken bool
+}
+
+// IsValid keeps a connection with a stuck XA branch out of the pool
+func (c *XAConn) IsValid() bool {
+	return !c.broken && c.Conn.IsValid()
 }
 
 func (c *XAConn) PrepareContext(ctx context.Context, query string) (driver.Stmt, error) {
@@ -151,13 +159,18 @@ func (c *XAConn) BeginTx(ctx context.Context, opts driver.TxOptions) (driver.Tx,
 		c.keepIfNecessary()
 
 		if err = c.start(ctx); err != nil {
+			// the branch is registered but will never run: tell the coordinator,
+			// or phase two comes for a branch the database never heard of
+			if rerr := baseTx.report(false); rerr != nil {
+				log.Errorf("report xa branch failure xid:%s, err:%v", c.txCtx.XID, rerr)
+			}
 			c.cleanXABranchContext()
 			return nil, fmt.Errorf("failed to start xa branch xid:%s err:%w", c.txCtx.XID, err)
 		}
 		c.xaActive = true
 	}
 
-	return &XATx{tx: tx.(*Tx)}, nil
+	return &XATx{tx: tx.(*Tx), xaConn: c}, nil
 }
 
 func (c *XAConn) createOnceTxContext(ctx context.Context) bool {
@@ -209,20 +222,34 @@ func (c *XAConn) createNewTxOnExecIfNeed(ctx context.Context, f func() (types.Ex
 		if rollbackErr := c.Rollback(ctx); rollbackErr != nil {
 			log.Errorf("failed to rollback xa branch of :%s, err:%w", c.txCtx.XID, rollbackErr)
 		}
+		c.reportOnceTxFailure(tx)
 		return nil, err
 	}
 
 	if tx != nil && currentAutoCommit {
 		if err = c.Commit(ctx); err != nil {
 			log.Errorf("xa connection proxy commit failure xid:%s, err:%v", c.txCtx.XID, err)
-			// XA End & Rollback
-			if err := c.Rollback(ctx); err != nil {
-				log.Errorf("xa connection proxy rollback failure xid:%s, err:%v", c.txCtx.XID, err)
-			}
+			c.reportOnceTxFailure(tx)
+			// the branch could not be ended / prepared (Commit has rolled it back):
+			// the statement has failed for the caller
+			return nil, err
 		}
 	}
 
 	return ret, nil
+}
+
+// reportOnceTxFailure reports the branch opened for a single autocommit
+// statement as failed in phase one (an explicit transaction reports in its
+// own Commit / Rollback)
+func (c *XAConn) reportOnceTxFailure(tx driver.Tx) {
+	xaTx, ok := tx.(*XATx)
+	if !ok || xaTx == nil {
+		return
+	}
+	if rerr := xaTx.tx.report(false); rerr != nil {
+		log.Errorf("report xa branch failure xid:%s, err:%v", c.txCtx.XID, rerr)
+	}
 }
 
 func (c *XAConn) keepIfNecessary() {
@@ -234,11 +261,21 @@ func (c *XAConn) keepIfNecessary() {
 }
 
 func (c *XAConn) releaseIfNecessary() {
-	if c.ShouldBeHeld() && c.xaBranchXid.String() != "" {
-		if c.isConnKept {
-			c.res.Release(c.xaBranchXid.String())
-			c.isConnKept = false
-		}
+	if c.xaBranchXid == nil {
+		return
+	}
+	c.release(c.xaBranchXid.String())
+}
+
+// release forgets the kept connection of the branch xaBranchXid (one
+// connection may have prepared several branches one after the other)
+func (c *XAConn) release(xaBranchXid string) {
+	if !c.ShouldBeHeld() || xaBranchXid == "" {
+		return
+	}
+	c.res.Release(xaBranchXid)
+	if c.xaBranchXid != nil && c.xaBranchXid.String() == xaBranchXid {
+		c.isConnKept = false
 	}
 }
 
@@ -303,11 +340,16 @@ func (c *XAConn) Rollback(ctx context.Context) error {
 
 	if !c.rollBacked {
 		if c.xaResource.End(ctx, c.xaBranchXid.String(), xa.TMFail) != nil {
-			return c.rollbackErrorHandle()
+			c.broken = true
+			err := c.rollbackErrorHandle()
+			c.cleanXABranchContext()
+			return err
 		}
 		if c.XaRollback(ctx, c.xaBranchXid) != nil {
+			c.broken = true
+			err := c.rollbackErrorHandle()
 			c.cleanXABranchContext()
-			return c.rollbackErrorHandle()
+			return err
 		}
 		if err := c.tx.Rollback(); err != nil {
 			c.cleanXABranchContext()
@@ -332,24 +374,32 @@ func (c *XAConn) Commit(ctx context.Context) error {
 	}
 
 	now := time.Now()
-	if c.end(ctx, xa.TMSuccess) != nil {
-		return c.commitErrorHandle(ctx)
+	if err := c.end(ctx, xa.TMSuccess); err != nil {
+		return c.commitErrorHandle(ctx, err)
 	}
 
-	if c.checkTimeout(ctx, now) != nil {
-		return c.commitErrorHandle(ctx)
+	if err := c.checkTimeout(ctx, now); err != nil {
+		return c.commitErrorHandle(ctx, err)
 	}
 
-	if c.xaResource.XAPrepare(ctx, c.xaBranchXid.String()) != nil {
-		return c.commitErrorHandle(ctx)
+	if err := c.xaResource.XAPrepare(ctx, c.xaBranchXid.String()); err != nil {
+		return c.commitErrorHandle(ctx, err)
 	}
+
+	// the branch is prepared: it is no longer active on this connection, which
+	// may serve the next branch; phase two finds it through the keeper
+	c.prepareTime = now
+	c.xaActive = false
 	return nil
 }
 
-func (c *XAConn) commitErrorHandle(ctx context.Context) error {
-	var err error
-	if err = c.XaRollback(ctx, c.xaBranchXid); err != nil {
-		err = fmt.Errorf("failed to report XA branch commit-failure xid:%s, err:%w", c.txCtx.XID, err)
+// commitErrorHandle rolls the branch back after END / PREPARE failed and
+// returns the failure: a branch that is not prepared has not committed
+func (c *XAConn) commitErrorHandle(ctx context.Context, cause error) error {
+	err := fmt.Errorf("failed to end / prepare xa branch xid:%s, err:%w", c.txCtx.XID, cause)
+	if rerr := c.XaRollback(ctx, c.xaBranchXid); rerr != nil {
+		c.broken = true
+		err = fmt.Errorf("failed to report XA branch commit-failure xid:%s, err:%v, cause:%w", c.txCtx.XID, rerr, cause)
 	}
 	c.cleanXABranchContext()
 	return err
@@ -360,7 +410,8 @@ func (c *XAConn) ShouldBeHeld() bool {
 }
 
 func (c *XAConn) checkTimeout(ctx context.Context, now time.Time) error {
-	if now.Sub(c.branchRegisterTime) > xaConnTimeout {
+	// a timeout that was never configured does not expire anything
+	if xaConnTimeout > 0 && now.Sub(c.branchRegisterTime) > xaConnTimeout {
 		c.XaRollback(ctx, c.xaBranchXid)
 		return fmt.Errorf("XA branch timeout error xid:%s", c.txCtx.XID)
 	}
@@ -369,17 +420,35 @@ func (c *XAConn) checkTimeout(ctx context.Context, now time.Time) error {
 
 func (c *XAConn) Close() error {
 	c.rollBacked = false
-	if c.isConnKept && c.ShouldBeHeld() {
+	if c.isConnKept && c.ShouldBeHeld() && !c.broken {
 		return nil
 	}
 	c.cleanXABranchContext()
+	c.forgetKept()
 	if err := c.Conn.Close(); err != nil {
 		return err
 	}
 	return nil
 }
 
+// forgetKept drops every kept entry of this connection once the physical
+// connection goes away: a branch it prepared stays prepared in the database
+// and phase two reaches it over a new connection
+func (c *XAConn) forgetKept() {
+	if c.res == nil {
+		return
+	}
+	c.res.GetKeeper().Range(func(key, value any) bool {
+		if kept, ok := value.(*XAConn); ok && kept == c {
+			c.res.GetKeeper().Delete(key)
+		}
+		return true
+	})
+	c.isConnKept = false
+}
+
 func (c *XAConn) CloseForce() error {
+	c.forgetKept()
 	if err := c.Conn.Close(); err != nil {
 		return err
 	}
@@ -391,7 +460,7 @@ func (c *XAConn) CloseForce() error {
 
 func (c *XAConn) XaCommit(ctx context.Context, xaXid XAXid) error {
 	err := c.xaResource.Commit(ctx, xaXid.String(), false)
-	c.releaseIfNecessary()
+	c.release(xaXid.String())
 	return err
 }
 
@@ -401,6 +470,6 @@ func (c *XAConn) XaRollbackByBranchId(ctx context.Context, xaXid XAXid) error {
 
 func (c *XAConn) XaRollback(ctx context.Context, xaXid XAXid) error {
 	err := c.xaResource.Rollback(ctx, xaXid.String())
-	c.releaseIfNecessary()
+	c.release(xaXid.String())
 	return err
 }
